@@ -57,6 +57,13 @@ func (m c03) marshalAndValidate(c *Ctx, d *DocSpec, incl []c03include, useRange 
 	viaInclude := incl != nil
 	if pi := Guard(func() {
 		b = d.build()
+		if strings.HasPrefix(tag, "resources-value") {
+			if col, ok := b.Doc.Data.(*jsonapi.Resources); ok {
+				holder := b.Doc
+				holder.Data = *col
+				c.Count("documents_with_resources_value")
+			}
+		}
 		if useRange {
 			if col, ok := b.Doc.Data.(jsonapi.Collection); ok {
 				b.Doc.Data = jsonapi.Range(col, nil, nil, []string{}, 1000, 0)
@@ -106,6 +113,10 @@ func (m c03) marshalAndValidate(c *Ctx, d *DocSpec, incl []c03include, useRange 
 	if err != nil {
 		if strings.HasPrefix(tag, "unencodable") {
 			c.Count("unencodable_refused")
+			return
+		}
+		if strings.HasPrefix(tag, "resources-value") {
+			c.Count("resources_value_refused")
 			return
 		}
 		c.Violate("marshal-error/"+tag, "%v; %s", err, desc())
@@ -313,6 +324,11 @@ func (m c03) Case(c *Ctx, r *RNG) {
 		}
 	}
 	m.marshalAndValidate(c, d, incl, useRange, "via-include")
+	if d.Kind == "collection" && d.Holder == "Resources" && !useRange {
+		// the collection given as a Resources VALUE (not a pointer): refused today; if a library accepts it, the
+		// document it writes is judged like any other
+		m.marshalAndValidate(c, d, incl, false, "resources-value/via-include")
+	}
 }
 
 func renameType(d *DocSpec, old, nn string) {
